@@ -479,6 +479,64 @@ def common_rule(chk, db):
         chk.analysis_broken("COMMON: only %d mixed-type binary duration operators found (floor 6)" % n)
 
 
+def compound_rule(chk, db):
+    """COMPOUND: a compound assignment / increment operator of duration and time_point applies its own arithmetic operator to
+    the representation: `operator-=` subtracts (`-=` or `-`), `operator++` adds one, ... . An operator of the opposite
+    direction or another family in the body (`_d += d` inside `operator-=`) is reported."""
+    allowed = {"+=": {"+=", "+"}, "-=": {"-=", "-"}, "*=": {"*=", "*"}, "/=": {"/=", "/"}, "%=": {"%=", "%"},
+               "++": {"++", "+=", "+"}, "--": {"--", "-=", "-"}}
+    family = {"+=", "-=", "*=", "/=", "%=", "+", "-", "*", "/", "%", "++", "--"}
+    n = 0
+    for f in db.funcs:
+        if f.get("body") is None or f.get("kind") != "method" or not f["n"].startswith("operator"):
+            continue
+        if not (f["file"].startswith("_chrono/duration.hpp") or f["file"].startswith("_chrono/time_point.hpp")):
+            continue
+        op = f["n"][len("operator"):]
+        if op not in allowed:
+            continue
+        used = []
+        for x in astx.all_exprs(f):
+            if x.get("k") == "bin" and x["op"] in family and not x.get("ovl", "").startswith("operator,"):
+                used.append((x["op"], x))
+            if x.get("k") == "un" and x["op"] in ("++", "--"):
+                used.append((x["op"], x))
+        if not used:
+            continue
+        n += 1
+        construct = astx.sig(f)
+        chk.instance("COMPOUND")
+        wrong = [(o, x) for o, x in used if o not in allowed[op]]
+        # the post-increment forms copy *this and then apply the pre-form: `++(*this)` inside operator++(int) is its own family
+        chk.obligation("COMPOUND", construct, not wrong, evaluations=len(used))
+        for o, x in wrong[:1]:
+            chk.violation("COMPOUND", construct, "wrong-operator", "%s: operator%s applies `%s` (`%s`)" % (astx.loc(f, x), op, o, astx.show(x, 40)),
+                          {"where": astx.loc(f)})
+    # the free binary operators: operator+ adds, operator- subtracts, ... (between tick counts or delegating to `+=` / a sibling)
+    bin_allowed = {"+": {"+", "+="}, "-": {"-", "-="}, "*": {"*", "*="}, "/": {"/", "/="}, "%": {"%", "%="}}
+    for f in db.funcs:
+        if f.get("body") is None or f.get("kind") != "function" or not f["n"].startswith("operator") or len(f["params"]) != 2:
+            continue
+        if not (f["file"].startswith("_chrono/duration.hpp") or f["file"].startswith("_chrono/time_point.hpp")):
+            continue
+        op = f["n"][len("operator"):]
+        if op not in bin_allowed:
+            continue
+        used = [(x["op"], x) for x in astx.all_exprs(f) if x.get("k") == "bin" and x["op"] in family]
+        if not used:
+            continue
+        n += 1
+        construct = astx.sig(f)
+        chk.instance("COMPOUND")
+        wrong = [(o, x) for o, x in used if o not in bin_allowed[op]]
+        chk.obligation("COMPOUND", construct, not wrong, evaluations=len(used))
+        for o, x in wrong[:1]:
+            chk.violation("COMPOUND", construct, "wrong-operator", "%s: operator%s applies `%s` (`%s`)" % (astx.loc(f, x), op, o, astx.show(x, 40)),
+                          {"where": astx.loc(f)})
+    if n < 6:
+        chk.analysis_broken("COMPOUND: only %d compound / binary arithmetic operators of duration / time_point found (floor 6)" % n)
+
+
 def units_rule(chk, db):
     """UNITS: tick counts of two different duration types are never compared, added, subtracted or divided with each other.
     Every expression gets the type tag of the duration it measures: a parameter its declared duration / time_point type,
@@ -568,7 +626,7 @@ def units_rule(chk, db):
         chk.analysis_broken("UNITS: only %d chrono functions that combine two tick counts found (floor 3)" % n)
 
 
-META_EXTRA = 'CAST / CONV (conversion arithmetic skeleton count*num/den in the common type; kernel selection); ROUND (floor/ceil/round evaluated as decision procedures, sign-robust parity); COMMON (tick counts read only from operands converted to the common duration); UNITS (type-tagged tick counts: no operator combines counts of two different duration types); REL (duration / time_point relational operators evaluated over the ordering of the compared subjects); PARAM.'
+META_EXTRA = 'CAST / CONV (conversion arithmetic skeleton count*num/den in the common type; kernel selection); ROUND (floor/ceil/round evaluated as decision procedures, sign-robust parity); COMMON (tick counts read only from operands converted to the common duration); UNITS (type-tagged tick counts: no operator combines counts of two different duration types); COMPOUND (compound assignment and increment operators apply their own arithmetic operator); REL (duration / time_point relational operators evaluated over the ordering of the compared subjects); PARAM.'
 META = (META[0] + " " + META_EXTRA, META[1])
 
 
@@ -581,6 +639,7 @@ def run(chk, tier):
     conv_rule(chk, db)
     common_rule(chk, db)
     units_rule(chk, db)
+    compound_rule(chk, db)
     from ..rules import rel as _REL
     nrel = _REL.check(chk, db, ["_chrono/time_point.hpp", "_chrono/duration.hpp"])      # REL: the relational operators over the ordering domain
     if chk.rule_instances.get("REL", 0) < 8:
